@@ -43,8 +43,9 @@ ASSUMPTIONS = [
     "BPTC payload = vp/refs/bptc_ref.bptc196_encode of the PDU's 96 bits; rate 1 = 96 bits + 4 zero bits + 96 bits (table "
     "B.10B as cited by the library); rate 3/4 = vp/refs/trellis34_ref.encode (FSM + constellation + interleaver written "
     "from the structure of B.2.4, validated against the three captured blocks of fec/test_trellis.py)",
-    "PDU field settings that are encode/decode asymmetries of the PDU classes themselves (C03; DESIGN.md §5 rows 3-5) are "
-    "replaced by the safe value and counted under excluded_by_construction",
+    "no field setting is excluded: the three PDU-level asymmetries of DESIGN.md §5 rows 3-5 (C03) were routed around until "
+    "they were repaired in /repo (a566ed4, 2d4d28d, 70fa250); on older trees they show up here as "
+    "parsed_payload_fields_equal / reassembled_bytes_identical failures of NACK_Rsp, C_ALOHA and response headers",
     "rate blocks: a burst alone cannot know confirmed/last, the parsed block is .convert()-ed to the generated block type "
     "before fields are compared (the library's own idiom in Transmission)",
     "GPS coordinates are multiples of the wire resolution; other floats cannot survive a 25/24-bit field and are not "
